@@ -24,7 +24,7 @@ TRANSLATORS = []
 
 THEOREM_LIST = [
     'C18_length_counts_cps', 'C18_utf8_len_ge_length', 'C18_utf8_len_eq_length_iff_ascii', 'C18_index_is_nth',
-    'C18_index_rejected', 'C18_substr_slice_agree', 'C18_slice_is_skip_take_step', 'C18_slice_no_panic',
+    'C18_index_rejected', 'C18_index_small_is_nth', 'C18_substr_small', 'C18_substr_slice_agree', 'C18_slice_is_skip_take_step', 'C18_slice_no_panic',
     'C18_split_total', 'C18_join_split', 'C18_split_no_sep_inside', 'C18_std_join_split',
     'C18_findSubstr_sound_complete', 'C18_findSubstr_in', 'C18_strip_decomposes', 'C18_strip_maximal',
     'C18_lstrip_spec', 'C18_rstrip_spec', 'C18_splitLimit_first_n', 'C18_splitLimitR_last_n',
